@@ -76,7 +76,19 @@ def check_lookups(rep, prog):
         "get_chip_desc": I.method(pr, "get_chip_desc", [m, Sym("node", "int"), Sym("chip", "int")]),
     }
     rg = I.method(pr, "get_reg_data", [m, rid, inst])
-    rgi = list_items(I, rg) or []
+
+    def pair_items(t):
+        """the (name, address) pair - returned from one place, or from several (one per outcome of the look-ups)"""
+        if isinstance(t, Ite):
+            a_, b_ = pair_items(t.a), pair_items(t.b)
+            if a_ is None or b_ is None:
+                return a_ if b_ is None else b_
+            if len(a_) != len(b_):
+                return None
+            return [("v", pelx.ite(t.c, x_[1], y_[1]), TRUE) for x_, y_ in zip(a_, b_)]
+        its_ = list_items(I, t)
+        return its_ if its_ is not None and all(i_[0] == "v" for i_ in its_) else None
+    rgi = pair_items(rg) or []
     results["get_reg_data"] = Op("tuple", *[i[1] for i in rgi])
     allowed_keys = {Op("m:lower", m), Op("m:lower", sid), Op("m:lower", rid), Op("str", bit), Op("str", attn), Op("str", inst)}
     n = 0
